@@ -122,7 +122,7 @@ Print Assumptions C09_no_wedge_receipts_needs_order.
    panic), and it parks only while a listener is registered that nobody accepts
    from. *)
 Theorem C09_no_wedge_ibb_partial : forall f e start,
-  f_keys_agree f = true ->
+  f_keys_agree f = true -> f_close_no_wait f = true ->
   mem CPanic (ibb_iq f e start) = false /\
   (listener_served f e = true -> mem CBlocked (ibb_iq f e start) = false).
 Proof. exact nw_ibb_partial. Qed.
@@ -134,7 +134,7 @@ Print Assumptions C09_no_wedge_ibb_partial.
    that gives up removes a registration only if it is its own; without that, the
    take-over history (Expect, Expect again for the same session) parks. *)
 Theorem C09_expected_open_delivered : forall f e start,
-  f_keys_agree f = true -> f_expect_owner f = true ->
+  f_keys_agree f = true -> f_close_no_wait f = true -> f_expect_owner f = true ->
   e_match e = true -> expect_live (e_hist e) = true ->
   mem CPanic (ibb_iq f e start) = false /\ mem CBlocked (ibb_iq f e start) = false.
 Proof. exact ibb_expected_open_delivered. Qed.
@@ -144,6 +144,14 @@ Theorem C09_expected_open_needs_owner_check : forall f, f_expect_owner f = false
   mem CBlocked (ibb_iq f takeover_env (TStart (mkname (str "http://jabber.org/protocol/ibb") (str "open")) [])) = true.
 Proof. exact ibb_lost_registration_parks. Qed.
 Print Assumptions C09_expected_open_needs_owner_check.
+
+(* A <close/> for a stream on which a local Write is in progress (its data IQ is
+   out, it holds the write lock and waits for an acknowledgement only the serving
+   goroutine can deliver) parks exactly when the close handler waits for that lock. *)
+Theorem C09_close_needs_no_wait : forall f, f_close_no_wait f = false ->
+  mem CBlocked (ibb_iq f writing_env close_start) = true.
+Proof. exact ibb_close_waiting_parks. Qed.
+Print Assumptions C09_close_needs_no_wait.
 
 (* muc.Client.HandlePresence (sources owned by C18), for every history of joins,
    departures and Leave calls: no panic; never parked when the departure
@@ -167,6 +175,10 @@ Print Assumptions C09_depart_is_select.
 Theorem C09_expect_cleanup_checks_owner : f_expect_owner gen_facts = true.
 Proof. exact expect_cleanup_checks_owner. Qed.
 Print Assumptions C09_expect_cleanup_checks_owner.
+
+Theorem C09_serve_close_never_waits_for_writer : f_close_no_wait gen_facts = true.
+Proof. exact serve_close_never_waits_for_writer. Qed.
+Print Assumptions C09_serve_close_never_waits_for_writer.
 
 Theorem C09_receipts_delete_first : f_rcpt_delete_first gen_facts = true.
 Proof. exact receipts_delete_first. Qed.
@@ -214,7 +226,8 @@ Print Assumptions C09_no_wedge_refuted.
    departure is a plain send / the receipt handler signals before deleting; *)
 Theorem C09_no_wedge_partial : forall f c e start rs,
   mem CBlocked (run_comp f c e start rs) = true ->
-  (c = HHistory /\ e_ready e = false) \/ (c = HIbbIQ /\ listener_served f e = false) \/
+  (c = HHistory /\ e_ready e = false) \/
+  (c = HIbbIQ /\ (listener_served f e = false \/ f_close_no_wait f = false)) \/
   (c = HMucPres /\ f_depart_select f = false) \/ (c = HReceipts /\ f_rcpt_delete_first f = false).
 Proof. exact no_wedge_partial. Qed.
 Print Assumptions C09_no_wedge_partial.
